@@ -7,7 +7,6 @@ import (
 	"sync"
 	"sync/atomic"
 	"testing"
-	"time"
 
 	"github.com/libsv/go-bt/v2"
 	"pgregory.net/rapid"
@@ -40,6 +39,10 @@ type PrivCase struct {
 var privOps = []string{"edit-default-in-place", "addquote", "edit-fetched-in-place", "unmarshal", "updateminer", "edit-miner-default-in-place", "expiry", "marshal"}
 
 func checkPrivate(ctx *pbt.Ctx, c PrivCase) error {
+	if skipAbandoned(ctx) {
+		return nil
+	}
+	var bt8 beat
 	if c.Procs < 1 || c.Procs > 64 || c.Goroutines < 2 || c.Goroutines > 32 || c.Rounds < 1 || c.Rounds > 5000 || len(c.Ops) == 0 || len(c.Ops) > 32 {
 		ctx.Discard("malformed case")
 		return nil
@@ -81,6 +84,7 @@ func checkPrivate(ctx *pbt.Ctx, c PrivCase) error {
 					return
 				}
 				id := (g*977 + round) % (maxG * maxOps)
+				bt8.tick()
 				for k, op := range c.Ops {
 					switch privOps[op%len(privOps)] {
 					case "edit-default-in-place":
@@ -156,10 +160,8 @@ func checkPrivate(ctx *pbt.Ctx, c PrivCase) error {
 	atomic.StoreInt32(&gate, 1)
 	done := make(chan struct{})
 	go func() { wg.Wait(); close(done) }()
-	select {
-	case <-done:
-	case <-time.After(120 * time.Second):
-		return fmt.Errorf("the goroutines did not finish within 120 s")
+	if err := bounded(done, &bt8, fmt.Sprintf("%d goroutines, each on quote objects of its own", c.Goroutines)); err != nil {
+		return err
 	}
 	if first != nil {
 		return first
